@@ -158,11 +158,40 @@ class Runner:
                 o.timestamp = us_to_dt(e[1])
                 o.duration = us_to_dt(e[2]) - us_to_dt(0)
                 o.data = json.loads(e[3]) if e[3] else {}
+            if used is None:
+                # single-event calls: the client keeps ONE state dict and refills it in place before every call (a watcher
+                # loop); what it wrote earlier with the same dict object must not follow the dict
+                state.clear()
+                state.update(json.loads(e[3]) if e[3] else {})
+                o.data = state
             return o
+
+        state = {}
+
+        def scribble(events):
+            """a handed-out event is the client's to change: mark its data in place, top level and below"""
+            for x in events:
+                if x is None:
+                    continue
+                for v in list(x.data.values()):
+                    if isinstance(v, list):
+                        v.append("client-scribble")
+                    elif isinstance(v, dict):
+                        v["client-scribble"] = 1
+                x.data["client-scribble"] = [1]
 
         def h(b):
             """the client's handle of bucket b (looked up earlier; possibly stale)"""
             return ds.bucket_instances.get(b) or _handle(ds, b)
+
+        held = {}
+
+        def held_handle(b):
+            """the handle the client obtained the first time it looked at bucket b and has kept ever since (across
+            deletion and re-creation of the bucket)"""
+            if b not in held:
+                held[b] = ds.bucket_instances.get(b) or _handle(ds, b)
+            return held[b]
 
         refs = []  # k -> concrete id
         outs, resolved, dumps = [], [], []
@@ -202,12 +231,16 @@ class Runner:
                 elif k == "reopen":
                     store.reopen()
                     ds, st = store.ds, store.st
+                    held.clear()
                     out = ["ok"]
                 elif k == "lookup":
                     ds[op[1]]
                     out = ["ok"]
                 elif k == "metadata":
-                    out = ["ok", meta_tuple(st.get_metadata(op[1]))]
+                    m1 = meta_tuple(held_handle(op[1]).metadata())
+                    if m1 != meta_tuple(st.get_metadata(op[1])):
+                        m1 = ["a handle kept by the client describes the bucket as", m1, "the store as", meta_tuple(st.get_metadata(op[1]))]
+                    out = ["ok", m1]
                 elif k == "buckets":
                     bs = ds.buckets()
                     out = ["ok", {b: meta_tuple(bs[b]) for b in sorted(bs)}]
@@ -247,12 +280,13 @@ class Runner:
                     h(op[1]).replace(i, ev_obj([self.resolve(op[3][0], refs)] + list(op[3][1:])))
                     out = ["ok"]
                 elif k == "replacelast":
+                    blind = quiet or (len(op) > 3 and op[3] == "blind")  # no limit-1 read right before it
                     try:
-                        last = None if quiet else h(op[1]).get(1)
+                        last = None if blind else h(op[1]).get(1)
                         hint = last[0].id if last else None
                     except Exception:
                         hint = None
-                    rop.append(hint)
+                    rop = rop[:3] + [hint]
                     h(op[1]).replace_last(ev_obj([self.resolve(op[2][0], refs)] + list(op[2][1:])))
                     out = ["ok"]
                 elif k == "delete":
@@ -265,11 +299,13 @@ class Runner:
                     r = b.get(op[2], us_to_dt(op[3]) if op[3] is not None else None,
                               us_to_dt(op[4]) if op[4] is not None else None)
                     out = ["ok", [ev_tuple(e) for e in r]]
+                    scribble(r)
                 elif k == "getbyid":
                     i = self.resolve(op[2], refs)
                     rop[2] = i
                     r = h(op[1]).get_by_id(i)
                     out = ["ok", None if r is None else ev_tuple(r)]
+                    scribble([r])
                 elif k == "count":
                     r = h(op[1]).get_eventcount(us_to_dt(op[2]) if op[2] is not None else None,
                                           us_to_dt(op[3]) if op[3] is not None else None)
